@@ -345,6 +345,23 @@ func runC15(ctx *core.Ctx) {
 		if k == 0 {
 			ctx.Unknown("X5", "txtar-c.main$1#newline", m.Pos(), "no newline append found")
 		}
+		// the quoting decision must be taken on the newline-normalised data: Quote refuses
+		// unterminated data, so deciding first silently drops a marker-bearing file without final newline
+		isNLAppend := func(v ssa.Value) bool {
+			c, ok := v.(*ssa.Call)
+			if !ok || ssax.CalleeName(&c.Call) != "builtin.append" {
+				return false
+			}
+			el := variadicElems(c.Call.Args[1])
+			if len(el) != 1 {
+				return false
+			}
+			b, ok := ssax.ConstInt(el[0])
+			return ok && b == '\n'
+		}
+		for q, c := range mg.Calls(core.ModPath+"/txtar.NeedsQuote", core.ModPath+"/txtar.Quote") {
+			ctx.Check(ssax.DerivedFrom(c.Call.Args[0], isNLAppend, nil), "X5", "txtar-c.main$1#quote-after-newline"+itoa(q+1), c.Pos(), "%s is applied to the data after the final-newline fix", ssax.CalleeName(&c.Call))
+		}
 	}
 }
 
